@@ -1,4 +1,5 @@
 use core::fmt::Debug;
+use std::collections::BTreeSet;
 use std::net::Ipv4Addr;
 use std::net::SocketAddr;
 use std::net::SocketAddrV4;
@@ -14,13 +15,13 @@ use futures::Sink;
 use futures::SinkExt;
 use futures::Stream;
 use futures::StreamExt;
+use futures::stream::FuturesUnordered;
 use futures::stream::SplitSink;
 use http::HeaderName;
 use http::HeaderValue;
 use log::debug;
 use log::error;
 use log::info;
-use lru_time_cache::Entry;
 use lru_time_cache::LruCache;
 use octo_squirrel::codec::BytesCodec;
 use octo_squirrel::codec::DatagramPacket;
@@ -40,6 +41,7 @@ use tokio::net::TcpStream;
 use tokio::net::UdpSocket;
 use tokio::sync::mpsc;
 use tokio::sync::mpsc::Sender;
+use tokio::sync::mpsc::error::TrySendError;
 use tokio::task::JoinHandle;
 use tokio::time;
 use tokio_rustls::TlsConnector;
@@ -200,9 +202,25 @@ where
     // client->local|inbound, local->client|inbound
     let (mut client_local, mut local_client) = UdpFramed::new(inbound, Socks5UdpCodec).split();
     let ttl = Duration::from_secs(600);
-    let mut client_server_cache = LruCache::with_expiry_duration_and_capacity(ttl, 64);
+    let mut client_server_cache: LruCache<Key, Binding<DatagramPacket>> = LruCache::with_expiry_duration_and_capacity(ttl, 64);
     let (client_local_tx, mut client_local_rx) = mpsc::channel(1024);
     let mut cleanup_timer = time::interval(ttl);
+    // A binding is opened (connecting to the server: a handshake that may stall) and written to (a connection that may take
+    // no more data for a while) by futures of their own, polled next to the loop's other work: neither holds up the
+    // datagrams and answers of the other bindings.  `opening`: keys whose binding is being opened, with that future;
+    // `writers`: one per open binding, fed through the binding's queue.
+    let mut opening = FuturesUnordered::new();
+    let mut pending: BTreeSet<Key> = BTreeSet::new();
+    let mut writers = FuturesUnordered::new();
+    let mut next_id = 0u64;
+    let context = &context;
+    let open = |key: Key, msg: (DatagramPacket, SocketAddr), client_local_tx: ClientLocalSender<Key>| async move {
+        let binding = match new_out(&msg.0.1, context).await {
+            Ok(out) => new_binding(server_addr, client_local_tx, msg, key.clone(), out, to_inbound_recv, to_outbound_send).await,
+            Err(e) => Err(e),
+        };
+        (key, binding)
+    };
     loop {
         tokio::select! {
             // clean up
@@ -222,6 +240,39 @@ where
                 }
                 client_local.send(item).await.unwrap_or_else(|e| error!("[udp] failed to send inbound msg; error={}", e));
             }
+            // a binding has been opened, or could not be
+            Some((key, binding)) = opening.next() => {
+                pending.remove(&key);
+                match binding {
+                    Ok((sink, relay_task)) => {
+                        let (queue, mut queued) = mpsc::channel::<DatagramPacket>(64);
+                        let id = next_id;
+                        next_id += 1;
+                        let _key = key.clone();
+                        writers.push(async move {
+                            // client->server|outbound
+                            let mut sink: SplitSink<Out, OutSend> = sink;
+                            while let Some(packet) = queued.recv().await {
+                                if let Err(e) = sink.send(to_outbound_send(packet, server_addr)).await {
+                                    return (_key, id, Err(e));
+                                }
+                            }
+                            (_key, id, Ok(()))
+                        });
+                        client_server_cache.insert(key, Binding { id, queue, relay_task });
+                    }
+                    Err(e) => error!("[udp] new binding failed; key={:?}, error={}", &key, e),
+                }
+            }
+            // the writer of a binding has ended: its connection failed, or the binding is gone
+            Some((key, id, res)) = writers.next() => {
+                if let Err(e) = res {
+                    error!("[udp] outbound send failed, dropping the binding; key={:?}, error={}", &key, e);
+                    if client_server_cache.peek(&key).is_some_and(|binding| binding.id == id) {
+                        client_server_cache.remove(&key);
+                    }
+                }
+            }
             // local->client|inbound
             Some(next) = local_client.next() => {
                 // a malformed local datagram, or an outbound that cannot be opened or written, concerns
@@ -234,47 +285,41 @@ where
                     }
                 };
                 let key = new_key(sender, &target);
-                let _key = key.clone();
-                let mut failed = false;
-                match client_server_cache.entry(key) {
-                    Entry::Vacant(entry) => {
-                        debug!("[udp] new binding; key={:?}", &_key);
-                        let binding = match new_out(&target, &context).await {
-                            Ok(out) => new_binding(server_addr, client_local_tx.clone(), ((content, target), sender), _key.clone(), out, to_inbound_recv, to_outbound_send).await,
-                            Err(e) => Err(e),
-                        };
-                        match binding {
-                            Ok((sink, relay_task)) => { entry.insert(Binding {sink, relay_task}); }
-                            Err(e) => error!("[udp] new binding failed; key={:?}, error={}", &_key, e),
-                        }
-                    }
-                    Entry::Occupied(entry) => {
-                        // client->server|outbound
-                        let value = entry.into_mut();
-                        if value.relay_task.is_finished() {
-                            debug!("[udp] retry binding; key={:?}", &_key);
-                            let binding = match new_out(&target, &context).await {
-                                Ok(out) => new_binding(server_addr, client_local_tx.clone(), ((content, target), sender), _key.clone(), out, to_inbound_recv, to_outbound_send).await,
-                                Err(e) => Err(e),
-                            };
-                            match binding {
-                                Ok((sink, relay_task)) => {
-                                    value.sink = sink;
-                                    value.relay_task = relay_task;
-                                }
-                                Err(e) => {
-                                    error!("[udp] retry binding failed; key={:?}, error={}", &_key, e);
-                                    failed = true;
-                                }
-                            }
-                        } else if let Err(e) = value.sink.send(to_outbound_send((content, target), server_addr)).await {
-                            error!("[udp] outbound send failed, dropping the binding; key={:?}, error={}", &_key, e);
-                            failed = true;
-                        }
-                    }
+                if pending.contains(&key) {
+                    debug!("[udp] binding is being opened, datagram dropped; key={:?}", &key);
+                    continue;
                 }
-                if failed {
-                    client_server_cache.remove(&_key);
+                let usable = client_server_cache.get(&key).map(|binding| !binding.relay_task.is_finished());
+                match usable {
+                    Some(true) => {
+                        // client->server|outbound
+                        let gone = match client_server_cache.get(&key) {
+                            Some(binding) => match binding.queue.try_send((content, target)) {
+                                Ok(()) => false,
+                                Err(TrySendError::Full(_)) => {
+                                    debug!("[udp] binding busy, datagram dropped; key={:?}", &key);
+                                    false
+                                }
+                                Err(TrySendError::Closed(_)) => true,
+                            },
+                            None => false,
+                        };
+                        if gone {
+                            client_server_cache.remove(&key);
+                        }
+                    }
+                    other => {
+                        if other.is_some() {
+                            debug!("[udp] retry binding; key={:?}", &key);
+                            client_server_cache.remove(&key);
+                        } else {
+                            debug!("[udp] new binding; key={:?}", &key);
+                        }
+                        if pending.len() < 64 {
+                            pending.insert(key.clone());
+                            opening.push(open(key, ((content, target), sender), client_local_tx.clone()));
+                        }
+                    }
                 }
             }
             else => break,
@@ -329,12 +374,13 @@ where
     Ok((client_server, relay_task))
 }
 
-struct Binding<Out, OutSend> {
-    sink: SplitSink<Out, OutSend>,
+struct Binding<Packet> {
+    id: u64,
+    queue: Sender<Packet>,
     relay_task: JoinHandle<()>,
 }
 
-impl<Out, OutSend> Drop for Binding<Out, OutSend> {
+impl<Packet> Drop for Binding<Packet> {
     fn drop(&mut self) {
         debug!("[udp] remove binding");
         self.relay_task.abort();
